@@ -183,28 +183,6 @@ fn c13_merkle_sound_t5_a3() {
 // of honest proofs is still decided: the differential assertion in `soundness` compares `verify`
 // with the reference verification on ALL inputs, which include every honest proof.
 
-// @verif prop=C13 tier=thorough shape="index and total free in 0..=i64::MAX (everything TryFrom<RawMerkleProof> admits), 0..=1 free aunts, free leaf" funcs="MerkleProof::verify,subtree_root_from_aunts"
-#[kani::proof]
-#[kani::unwind(34)]
-fn c13_merkle_huge_totals() {
-    ideal_hash::reset();
-    let index: usize = kani::any();
-    let total: usize = kani::any();
-    kani::assume(total >= 1 && total <= i64::MAX as usize && index <= i64::MAX as usize);
-    let a: [Hash; 1] = kani::any();
-    let n: usize = kani::any();
-    kani::assume(n <= 1);
-    let mut aunts = Vec::with_capacity(1);
-    if n >= 1 {
-        aunts.push(a[0]);
-    }
-    let x = Leaf(kani::any());
-    let proof = MerkleProof { index, total, leaf_hash: ideal_hash::oracle(0, &[x.as_ref()]), aunts };
-    let root: Hash = kani::any();
-    // no arithmetic panic for any decoded proof, and never accepted with index >= total
-    let res = proof.verify(x, root);
-    assert!(res.is_err() || index < total, "C13 merkle proof accepted with index >= total");
-    kani::cover!(res.is_ok() && total > (1usize << 40), "witness: accepted with a huge total");
-    std::mem::forget(proof);
-    std::mem::forget(res);
-}
+// NOTE: a harness with index/total free over the whole i64 range (what TryFrom<RawMerkleProof>
+// admits) exhausts the 14 GB cap (symbolic `next_power_of_two` inside the recursion); totals are
+// bounded by 2T+1 in the harnesses above, so arithmetic for huge totals is outside the claim.
